@@ -271,15 +271,59 @@ def exhaustive_histories(depth):
                 stats['exhaustive:len%d' % l] = stats.get('exhaustive:len%d' % l, 0) + 1
     return fn
 
+def c04_array_type_grid(impl, rng, stats):
+    """'array elements are scalars of one type' under every way of appending: first element type x appended type x
+    append route (config_setting_add, the five set_*_elem(array, -1, ..), the parser) x auto-convert off/on - the numeric
+    types are interchangeable for VALUES under auto-conversion, never for the element type of an array"""
+    H = hexs
+    tys = [2, 3, 4, 5, 6]
+    lit = {2: b'1', 3: b'2L', 4: b'2.5', 5: b'"s"', 6: b'true'}
+    for auto in (0, 1):
+        for t1 in tys:
+            impl.do('init'); impl.do('set_option 1 %d' % auto)
+            for k, t2 in enumerate(tys):
+                impl.do('add / %s 7' % H(b'a%d' % k)); impl.do('add /%d - %d' % (k, t1))
+                impl.do('add /%d - %d' % (k, t2)); impl.do('wf')
+            impl.do('add / %s 7' % H(b'e'))
+            base = len(tys)
+            impl.do('add /%d - %d' % (base, t1))
+            for op, arg in (('set_int_elem', '7'), ('set_int64_elem', '5000000000'), ('set_float_elem', '4004000000000000'),
+                            ('set_bool_elem', '1'), ('set_string_elem', H(b'x'))):
+                impl.do('%s /%d -1 %s' % (op, base, arg)); impl.do('wf')
+            impl.do('dump')
+            for t2 in tys:
+                impl.do('read_string ' + H(b'v = [ ' + lit[t1] + b', ' + lit[t2] + b' ];\nw = [ ' + lit[t1] + b', ' + lit[t1] + b', ' + lit[t2] + b' ];\n'))
+                impl.do('wf'); impl.do('dump')
+            stats['c04:array-type-grid'] = stats.get('c04:array-type-grid', 0) + 1
+
 def run_C04(ctx):
     s, n = sizes(ctx, (6, 250), (300, 1000))
     d = 3 if ctx['tier'] == 'quick' else 4
     correspondence(ctx, [exhaustive_histories(d)], proj_shape, oracle_wf, 'C04 well-formedness', 'exhaustive<=%d' % d, model_is_spec=False, probe_ops=('wf',))
     ctx['cov']['exhaustive_histories'] = {'alphabet': small_alphabet(), 'max_len': d}
+    correspondence(ctx, [c04_array_type_grid], proj_shape, oracle_wf, 'C04 well-formedness', 'array-type-grid', model_is_spec=False, probe_ops=('wf',))
     api_correspondence(ctx, ['structure'], s, n, proj_shape, oracle_wf, 'C04 well-formedness', model_is_spec=False, probe_ops=('wf',))
     # "...succeeding or failing": a call interrupted by an allocation failure whose handler jumps out of the library
     # leaves a well-formed tree (lengths, indices, member lookup agree with the children; walked under ASan)
     c16_hooks_under_faults(ctx, 'C04 well-formedness after an interrupted call')
+
+def c05_remove_paths(impl, rng, stats):
+    """config_setting_remove(parent, path) deletes exactly the setting the path addresses - also when the LAST component
+    of the path is, besides, the name of a direct member of `parent` (root has port and server.port): every separator,
+    from the root and from an inner group, hooks attached so the destructor log shows which setting went"""
+    H = hexs
+    for dt in (0, 1):
+        for sep in (b'.', b':', b'/'):
+            for path in (b'server' + sep + b'port', b'server' + sep + b'db' + sep + b'port', b'port', b'server', sep + b'server' + sep + b'port',
+                         b'server' + sep + b'nope', b'nope' + sep + b'port', b'lst' + sep + b'[1]' + sep + b'port', b'server' + sep + b'[0]'):
+                impl.do('init'); impl.do('set_destructor %d' % dt)
+                impl.do('read_string ' + H(b'port = 1; server = { port = 2; db = { port = 3; host = "h"; }; }; lst = ( { port = 4; }, { port = 5; } ); host = "x";\n'))
+                impl.do('set_hook /0 11'); impl.do('set_hook /1/0 12'); impl.do('set_hook /1/1/0 13'); impl.do('set_hook /2/1/0 14'); impl.do('set_hook /1 15')
+                impl.do('remove / %s' % H(path)); impl.do('dump'); impl.do('wf')
+                impl.do('lookup / %s' % H(b'port')); impl.do('lookup / %s' % H(b'server.port')); impl.do('lookup / %s' % H(b'server.db.port'))
+                impl.do('remove /1 %s' % H(b'db' + sep + b'port')); impl.do('dump')
+                impl.do('destroy')
+                stats['c05:remove-by-path'] = stats.get('c05:remove-by-path', 0) + 1
 
 def run_C05(ctx):
     s, n = sizes(ctx, (6, 250), (300, 1000))
@@ -291,6 +335,10 @@ def run_C05(ctx):
     # unchanged": the assignment grid (stored type x boundary value x setter kind x auto-convert, direct and element
     # setters), full projection - every answer and the whole dump after it
     correspondence(ctx, [c07_grid], proj_full, None, 'C05 ordered-tree behaviour', 'assignment-grid')
+    correspondence(ctx, [c05_remove_paths], proj_full, None, 'C05 ordered-tree behaviour', 'remove-by-path')
+    # "an operation that reports failure changes nothing" includes the operation that never returns: every allocation of an
+    # add/override/remove history fails in turn, the handler jumps out, the tree is walked (no half-built member)
+    c16_hooks_under_faults(ctx, 'C05 a failed operation leaves the tree as it was')
 
 def c06_typed_grid(impl, rng, stats):
     """failing typed lookups must leave the output untouched: stored type x requested type x auto-convert x by-path/by-name"""
@@ -323,26 +371,65 @@ def c06_names_in_aggregates(impl, rng, stats):
         impl.do('lookup_all'); impl.do('dump'); impl.do('wf')
         stats['c06:names-in-aggregates'] = stats.get('c06:names-in-aggregates', 0) + 1
 
+def c06_long_names(impl, rng, stats):
+    """names have no length limit: members whose names are 126..130, 255..257 and 1000 characters long and share every
+    shorter one as a prefix, nested twice; each is looked up by its path with every separator from the root and from its
+    group, typed, and a missing long name must not resolve"""
+    H = hexs
+    lens = [1, 63, 64, 126, 127, 128, 129, 130, 255, 256, 257, 1000]
+    text = b''.join(b'n' * l + b' = %d;\n' % l for l in lens)
+    impl.do('init')
+    impl.do('read_string ' + H(text + b'g = {\n' + text + b'h = {\n' + text + b'};\n};\n'))
+    for pre in (b'', b'g.', b'g:h/', b'.g.h.'):
+        for l in lens + [125, 131, 258, 999, 1001]:
+            nm = b'n' * l
+            impl.do('lookup / %s' % H(pre + nm)); impl.do('clookup_val int %s' % H(pre + nm))
+            stats['c06:long-names'] = stats.get('c06:long-names', 0) + 1
+    for l in lens:
+        impl.do('get_member /%d %s' % (len(lens), H(b'n' * l))); impl.do('lookup_val int /%d %s' % (len(lens), H(b'n' * l)))
+    impl.do('lookup_all'); impl.do('wf')
+
 def run_C06(ctx):
     s, n = sizes(ctx, (6, 200), (300, 1000))
     correspondence(ctx, [c06_names_in_aggregates], proj_full, oracle_lookup, 'C06 path lookup', 'names-in-aggregates')
     correspondence(ctx, [c06_typed_grid], proj_lookup, oracle_lookup, 'C06 path lookup', 'typed-grid')
+    correspondence(ctx, [c06_long_names], proj_lookup, oracle_lookup, 'C06 path lookup', 'long-names')
     api_correspondence(ctx, ['lookup'], s, n, proj_lookup, oracle_lookup, 'C06 path lookup')
     # the C++ half of the property: Setting::getPath() of every kind of setting (members, list and ARRAY elements, nested)
     # is the documented path text and resolves back (theorem C06_getPath on the model side; here through the real C++ API)
     import props_c17, gen_cpp
     k, m = (3, 260) if ctx['tier'] == 'quick' else (30, 700)
     fns = [(lambda impl, rng, stats, pr=pr: gen_cpp.session(impl, rng, m, pr, stats)) for pr in (['lookup', 'struct', 'mixed'] * k)[:k]]
-    correspondence(ctx, fns, props_c17.proj, props_c17.make_oracle(), 'C06 getPath round trip (C++ API)', 'cpp-paths', driver='drv_cpp.cc', extra=props_c17.WRAP)
+    # getPath() of EVERY setting, asked before and again after earlier siblings of an ancestor have been removed (through
+    # the C++ API and by name): the same Setting objects, whose position - and that of everything below them - has changed
+    def shifted(impl, rng, stats):
+        H = hexs
+        text = b'srv = ( { name = "a"; ports = [1, 2]; opt = { deep = ( 1, { x = 1; } ); }; }, { name = "b"; ports = [3]; opt = { deep = ( 2, { x = 2; } ); }; }, { name = "c"; opt = { deep = ( 3, { x = 3; } ); }; } );\ng = { first = 1; l = ( ( 1, 2 ), ( 3, { y = 1; } ) ); };\n'
+        def all_paths():
+            out = impl.do('dump')
+            import gen_cpp as G
+            r = G.parse_dump(out)
+            return [G.pstr(p) for p, _ in G.all_paths(r)] if r is not None else []
+        for removal in ('cpp remove_idx /0 0', 'cpp remove_idx /0 1', 'cpp remove %s %s' % ('/1', H(b'first')), 'cpp remove_idx /1/1 0', 'cpp remove_idx /0/0/2/0 0'):
+            impl.do('cpp init'); impl.do('cpp read_string %s' % H(text))
+            for q in all_paths():
+                impl.do('cpp get_path %s' % q)
+            impl.do(removal)
+            for q in all_paths():
+                impl.do('cpp get_path %s' % q)
+            stats['c06:getPath-after-shift'] = stats.get('c06:getPath-after-shift', 0) + 1
+    correspondence(ctx, fns + [shifted], props_c17.proj, props_c17.make_oracle(), 'C06 getPath round trip (C++ API)', 'cpp-paths', driver='drv_cpp.cc', extra=props_c17.WRAP)
 
 def c07_grid(impl, rng, stats):
     """the property's grid, enumerated: stored type x boundary value x accessor family x auto-convert"""
     H = hexs
     kinds = ['int', 'int64', 'float', 'bool', 'string']
     pools = {'int': gen_api.INT_POOL, 'int64': gen_api.INT64_POOL, 'float': gen_api.DBL_POOL, 'bool': [0, 1, 2], 'string': [b'', b'x', None]}
-    for auto in (0, 1):
+    # ... x the presentation state a conversion must not depend on: (default format, format of the integer targets)
+    for auto, dfmt, fmt in ((0, 0, 0), (1, 0, 0), (0, 0, 1), (1, 1, 0), (0, 1, 1)):
         impl.do('init')
         impl.do('set_option 1 %d' % auto)
+        impl.do('set_default_format %d' % dfmt)
         names = {'int': b'i', 'int64': b'l', 'float': b'f', 'bool': b'b', 'string': b's'}
         tcode = {'int': 2, 'int64': 3, 'float': 4, 'string': 5, 'bool': 6}
         for k in kinds:
@@ -351,6 +438,9 @@ def c07_grid(impl, rng, stats):
         for k in kinds:
             impl.do('add /5 - %d' % tcode[k])
         targets = [('/%d' % i, names[k], None) for i, k in enumerate(kinds)] + [('/5/%d' % i, None, i) for i in range(5)]
+        if fmt:
+            for pth in ('/0', '/1', '/5/0', '/5/1'):
+                impl.do('set_format %s %d' % (pth, fmt))
         n = 0
         for path, name, idx in targets:
             for k in kinds:
@@ -431,6 +521,16 @@ def c16_strings(ctx):
                     do('add_self /3/0 %d' % ty); do('dump')
                 do('add_self / 2')
                 do('destroy')
+                # the name argument of an addition is a string owned by the member the addition OVERRIDES (the name of a
+                # descendant, a string value inside it) or by an unrelated setting: copied before anything is released
+                for ty in (2, 5, 1, 8, 7):
+                    for kind, src in (('name', '/0/0'), ('name', '/0/1/0'), ('value', '/0/2'), ('name', '/1'), ('value', '/1'), ('name', '/0/3/0'), ('value', '/0/3/1')):
+                        do('init'); do('set_option 128 %d' % ov); do('set_destructor %d' % dt)
+                        do('read_string ' + hexs(b'cache = { cache = 1; sub = { cache = 2; }; s = "cache"; l = ( { cache = 3; }, "cache" ); };\nother = "cache";\n'))
+                        do('set_hook /0 21'); do('set_hook /0/0 22'); do('set_hook /0/1/0 23')
+                        do('add_alias / %s %s %d' % (src, kind, ty)); do('dump'); do('wf')
+                        do('add_alias /0 %s %s %d' % (src, kind, ty)); do('dump')
+                        do('destroy')
     correspondence(ctx, [fn], proj_full, None, 'C16 string copies and lifetimes', 'strings')
 
 def c16_hooks_under_faults(ctx, what='C16 hooks released exactly once'):
@@ -459,6 +559,8 @@ def run_C16(ctx):
     c16_hooks_under_faults(ctx, 'C16 hooks released exactly once')
     s, n = sizes(ctx, (6, 250), (300, 1000))
     api_correspondence(ctx, ['hooks'], s, n, proj_hooks, None, 'C16 destructor log')
+    # the hook released by a removal is the hook of the setting the path addresses - not of a namesake elsewhere
+    correspondence(ctx, [c05_remove_paths], proj_hooks, None, 'C16 destructor log', 'remove-by-path')
 
 def c19_value_pool(ctx):
     """every float/int boundary value written under scientific notation on/off x every precision class
@@ -650,12 +752,26 @@ def run_C09(ctx):
     # all the same, and the failure must be reported
     iofail1 = ('failing-once-stream', [], 'read_stream_fail1 0 ' + H(b'a = 1;\nb = 2;\n'), '1 %s - 0' % b'file I/O error'.hex())
     iomid1 = ('failing-once-stream-mid-setting', [], 'read_stream_fail1 7 ' + H(b'a = 1;\nb = [ 1, 2,'), '1 %s - 0' % b'file I/O error'.hex())
-    ev2 = events + [deep, multi, iofail, iomid, multiline, iofail1, iomid1]
-    d = len(events); m = d + 1; io = d + 2; im = d + 3; ml = d + 4; io1 = d + 5; im1 = d + 6
+    # NESTED includes: an error in the middle file AFTER an inner include has returned to it (the file name must be the
+    # middle file's again, not the top file's), as a syntax error and as a missing second include
+    nfiles = ['set_include_fn 0', 'mkfile %s %s' % (H(b'n_inner.cfg'), H(b'i = 1;\n')),
+              'mkfile %s %s' % (H(b'n_mid.cfg'), H(b'@include "n_inner.cfg"\nm = 1;\nbad = ;\n')),
+              'mkfile %s %s' % (H(b'n_top.cfg'), H(b't = 1;\n@include "n_mid.cfg"\nu = 2;\n')),
+              'mkfile %s %s' % (H(b'n_mid2.cfg'), H(b'@include "n_inner.cfg"\n@include "n_nope.cfg"\n')),
+              'mkfile %s %s' % (H(b'n_top2.cfg'), H(b'@include "n_mid2.cfg"\n'))]
+    nest1 = ('syntax-in-mid-file-after-inner-include-returned', nfiles, 'read_file ' + H(b'n_top.cfg'),
+             '2 %s %s 3' % (b'syntax error'.hex(), b'n_mid.cfg'.hex()))
+    nest2 = ('missing-include-in-mid-file-after-inner-include-returned', nfiles, 'read_file ' + H(b'n_top2.cfg'),
+             '2 %s %s 2' % (b'cannot open include file'.hex(), b'n_mid2.cfg'.hex()))
+    nest3 = ('syntax-in-mid-file-after-inner-include-returned-from-string', nfiles, 'read_string ' + H(b'@include "n_mid.cfg"\n'),
+             '2 %s %s 3' % (b'syntax error'.hex(), b'n_mid.cfg'.hex()))
+    ev2 = events + [deep, multi, iofail, iomid, multiline, iofail1, iomid1, nest1, nest2, nest3]
+    d = len(events); m = d + 1; io = d + 2; im = d + 3; ml = d + 4; io1 = d + 5; im1 = d + 6; n1 = d + 7; n2 = d + 8; n3 = d + 9
     # alone, after a syntax error, before a syntax error, before a missing file; the multi-include error and the failing
     # stream alone, after and before other failures
     seqs2 = [(d,), (1, d), (d, 1), (d, 9), (m,), (1, m), (m, 2), (io,), (1, io), (io, 1), (3, io, 0), (io, m),
-             (im,), (1, im), (im, 3), (0, im), (ml,), (3, ml), (ml, 1), (io1,), (1, io1), (io1, 0), (im1,), (im1, 1), (io, im1)]
+             (im,), (1, im), (im, 3), (0, im), (ml,), (3, ml), (ml, 1), (io1,), (1, io1), (io1, 0), (im1,), (im1, 1), (io, im1),
+             (n1,), (n2,), (n3,), (1, n1), (n1, 1), (n2, n1), (n1, n2), (io, n2)]
     e = {}
     correspondence(ctx, [streams.sess_c09(seqs2, ev2, e)], proj_err, streams.oracle_c09(e), 'C09 error information', 'stack-exhaustion')
 
@@ -1037,6 +1153,37 @@ def run_C11_all(ctx):
         return None
     correspondence(ctx, [fn], lambda op, out: None if first_word(op) in ('probe_badfile', 'fdmark') else out, oracle,
                    'C11 release of files and buffers', 'io-error-inside-include')
+    # what a read recorded is released by the NEXT call on the same configuration too: first reads that name files but
+    # leave the root empty (empty file, comments only, an error or a missing include on line 1, an include of such a
+    # file), each followed by every kind of second call; LeakSanitizer is asked right after the second call and after
+    # config_destroy
+    def reread(impl, rng, stats):
+        H = hexs
+        firsts = [('read_file', b'r_empty.cfg', b''), ('read_file', b'r_cmt.cfg', b'# only a comment\n/* and\nanother */\n'),
+                  ('read_file', b'r_bad1.cfg', b'= ;\n'), ('read_file', b'r_inc1.cfg', b'@include "r_nope.cfg"\n'),
+                  ('read_string', None, b'@include "r_cmt.cfg"\n'), ('read_string', None, b'@include "r_nope.cfg"\n'),
+                  ('read_file', b'r_incc.cfg', b'@include "r_cmt.cfg"\n# nothing else\n'), ('read_file', b'r_one.cfg', b'a = 1;\n')]
+        seconds = ['read_string ' + H(b'a = 1;\n'), 'read_file ' + H(b'r_cmt.cfg'), 'read_string ' + H(b'@include "r_cmt.cfg"\nb = 2;\n'),
+                   'read_file ' + H(b'r_missing.cfg'), 'clear', 'read_stream ' + H(b'c = 3;\n')]
+        for kind, name, text in firsts:
+            for snd in seconds:
+                impl.do('init'); impl.do('mkfile %s %s' % (H(b'r_cmt.cfg'), H(b'# only a comment\n')))
+                if name:
+                    impl.do('mkfile %s %s' % (H(name), H(text)))
+                impl.do('fdmark')
+                impl.do('%s %s' % (kind, H(name if name else text))); impl.do('dump')
+                impl.do(snd); impl.do('fdcount'); impl.do('leakcheck'); impl.do('dump')
+                impl.do('destroy'); impl.do('leakcheck')
+                stats['c11:second-call-after-empty-root-read'] = stats.get('c11:second-call-after-empty-root-read', 0) + 1
+    def oracle_reread(ops, outs):
+        for i, o in enumerate(ops):
+            if o == 'fdcount' and outs[i] != '0':
+                return i, 'two calls on one configuration left %s more open descriptor(s)' % outs[i]
+            if o == 'leakcheck' and outs[i] != '0':
+                return i, 'memory recorded by an earlier read of the same configuration was never released (LeakSanitizer) after: %s' % ' ; '.join(ops[max(0, i - 6):i])[:300]
+        return None
+    correspondence(ctx, [reread], lambda op, out: None if first_word(op) == 'fdmark' else out, oracle_reread,
+                   'C11 release of files and buffers', 'second-call')
 
 REGISTRY['C11'] = dict(modules=['LibconfigModel.Properties.C11', 'LibconfigModel.Properties.Skeleton'], run=run_C11_all, assumptions=COMMON_ASSUMPTIONS)
 
